@@ -2,6 +2,7 @@ package main
 
 import (
 	"fmt"
+	"os"
 	"go/constant"
 	"go/token"
 	"go/types"
@@ -48,6 +49,8 @@ type Engine struct {
 	errConsts   map[*ssa.Global]string
 	modulePath  string
 	loopCache   map[*ssa.Function]*loopInfo
+	retCovers int
+	pdomCache map[*ssa.Function]*pdomInfo
 	usedGhostFuncs map[string]bool
 	inputs      []inputTerm
 	funcIndex   map[string]*ssa.Function
@@ -255,70 +258,187 @@ func shortPos(p string) string {
 
 // ---------- the main interpreter loop ----------
 
-func (e *Engine) explore(st *State) {
+// explore runs the path(s) starting in st and returns the states that "arrived":
+//   - at block stop in the frame at depth stopDepth (arrival 1; used to merge the arms of a branch at its join), or
+//   - back in the frame at depth retDepth after a return of an inlined callee (arrival 2; used to merge the callee's
+//     return paths at the call's continuation).
+// All other paths run to their end (function return, panic, loop back edge).
+func (e *Engine) explore(st *State, stopDepth int, stop *ssa.BasicBlock, retDepth int) []*State {
+	var pending []*State
+	arrived := func() bool {
+		if stop != nil && !st.dead && len(st.frames) == stopDepth && st.top().block == stop && st.top().idx == firstNonPhi(stop) {
+			st.arrival = 1
+			return true
+		}
+		return false
+	}
+	if arrived() {
+		return []*State{st}
+	}
+	split := func(arr []*State) (blk, ret []*State) {
+		for _, a := range arr {
+			if a.arrival == 2 {
+				ret = append(ret, a)
+			} else {
+				blk = append(blk, a)
+			}
+		}
+		return
+	}
 	for !st.dead {
 		st.steps++
-		if st.steps > 20000 {
+		if st.steps > 40000 {
 			e.unsupported("path too long in %s", e.curFunc)
-			return
+			return pending
 		}
 		fr := st.top()
 		if fr.idx >= len(fr.block.Instrs) {
 			e.unsupported("fell off block in %s", fr.fn.String())
-			return
+			return pending
 		}
 		instr := fr.block.Instrs[fr.idx]
 		fr.idx++
+		d0 := len(st.frames)
 		switch in := instr.(type) {
 		case *ssa.If:
 			c := st.operand(in.Cond).T
 			t, f := fr.block.Succs[0], fr.block.Succs[1]
-			if c == "true" {
+			if c == "true" || (c != "false" && st.knows(c)) {
 				e.enterBlock(st, t)
+				if arrived() {
+					return append(pending, st)
+				}
 				continue
 			}
-			if c == "false" {
+			if c == "false" || st.knows(sNot(c)) {
 				e.enterBlock(st, f)
+				if arrived() {
+					return append(pending, st)
+				}
 				continue
 			}
 			if e.pathCount > e.maxPaths {
 				e.unsupported("too many paths in %s", e.curFunc)
-				return
+				return pending
 			}
+			depth := len(st.frames)
+			join := e.ipdom(fr.fn, fr.block)
+			if join != nil && e.loops(fr.fn).headers[join] != nil {
+				join = nil // do not merge at loop headers (they are cut points with their own protocol)
+			}
+			if join == nil || os.Getenv("GOVC_NOMERGE") != "" {
+				st2 := st.clone()
+				st2.assumeBranch(c)
+				e.enterBlock(st2, st2.top().block.Succs[0])
+				pending = append(pending, e.explore(st2, stopDepth, stop, retDepth)...)
+				st.assumeBranch(sNot(c))
+				e.enterBlock(st, f)
+				if arrived() {
+					return append(pending, st)
+				}
+				continue
+			}
+			forkTail, forkKnown := st.tail, st.known
 			st2 := st.clone()
-			st2.assume(c)
+			st2.assumeBranch(c)
 			e.enterBlock(st2, st2.top().block.Succs[0])
-			e.explore(st2)
-			st.assume(sNot(c))
+			a1, r1 := split(e.explore(st2, depth, join, retDepth))
+			st.assumeBranch(sNot(c))
 			e.enterBlock(st, f)
+			a2, r2 := split(e.explore(st, depth, join, retDepth))
+			pending = append(pending, r1...)
+			pending = append(pending, r2...)
+			arr := append(a1, a2...)
+			if len(arr) == 0 {
+				return pending
+			}
+			m := e.mergeStates(forkTail, forkKnown, arr)
+			if m == nil {
+				// not mergeable: continue every arrival on its own
+				for _, a := range arr {
+					a.arrival = 0
+					pending = append(pending, e.explore(a, stopDepth, stop, retDepth)...)
+				}
+				return pending
+			}
+			st = m
+			st.arrival = 0
+			if arrived() {
+				return append(pending, st)
+			}
+			continue
 		case *ssa.Jump:
 			e.enterBlock(st, fr.block.Succs[0])
+			if arrived() {
+				return append(pending, st)
+			}
+			continue
 		case *ssa.Return:
 			var res []Val
 			for _, r := range in.Results {
 				res = append(res, st.operand(r))
 			}
 			e.doReturn(st, res, in.Pos())
+			if retDepth > 0 && !st.dead && len(st.frames) == retDepth {
+				st.arrival = 2
+				return append(pending, st)
+			}
+			continue
 		case *ssa.Panic:
 			if st.safetyOn() {
 				st.addCheck(&Check{Name: fmt.Sprintf("%s.safety.panic@%s", e.curFunc, shortPos(posStr(e, in.Pos()))), Kind: "safety.panic", Goal: "false", Pos: posStr(e, in.Pos()), Func: e.curFunc})
 			}
 			e.endPath(st, "panic")
-			return
+			return pending
 		case *ssa.RunDefers:
 			if len(fr.defers) > 0 {
 				d := fr.defers[len(fr.defers)-1]
 				fr.defers = fr.defers[:len(fr.defers)-1]
 				fr.idx-- // come back here until the stack is empty
+				if d.guard != "" && d.guard != "true" && !st.knows(d.guard) {
+					if d.guard == "false" || st.knows(sNot(d.guard)) {
+						continue
+					}
+					// the defer statement was executed only on some of the merged arms
+					st2 := st.clone()
+					st2.assumeBranch(sNot(d.guard))
+					pending = append(pending, e.explore(st2, stopDepth, stop, retDepth)...)
+					st.assumeBranch(d.guard)
+				}
 				e.doCall(st, d.call, d.fn, d.args, nil, in.Pos(), true)
 			}
 		default:
 			e.execInstr(st, instr)
 		}
+		// an inlined callee was entered: run it to its returns and merge them at the continuation
+		if !st.dead && len(st.frames) == d0+1 {
+			forkTail, forkKnown := st.tail, st.known
+			arr := e.explore(st, 0, nil, d0)
+			if len(arr) == 0 {
+				return pending
+			}
+			m := e.mergeStates(forkTail, forkKnown, arr)
+			if m == nil {
+				for _, a := range arr {
+					a.arrival = 0
+					pending = append(pending, e.explore(a, stopDepth, stop, retDepth)...)
+				}
+				return pending
+			}
+			st = m
+			st.arrival = 0
+		}
 	}
+	return pending
 }
 
 func (e *Engine) endPath(st *State, how string) {
+	if st.summary != nil {
+		// a path that ends inside a summarised callee (panic, unsupported) is dropped from the summary
+		st.summary.dropped++
+		st.dead = true
+		return
+	}
 	st.dead = true
 	e.pathCount++
 	e.paths = append(e.paths, &pathResult{tail: st.tail, end: how, fn: e.curFunc})
@@ -326,6 +446,11 @@ func (e *Engine) endPath(st *State, how string) {
 
 func (e *Engine) doReturn(st *State, res []Val, pos token.Pos) {
 	fr := st.top()
+	if st.summary != nil && len(st.frames) == st.summary.base {
+		st.summary.outs = append(st.summary.outs, summaryOut{tail: st.tail, res: res, wmBase: st.wmBase, wmK: st.wmK})
+		st.dead = true
+		return
+	}
 	if len(st.frames) == 1 {
 		e.checkPost(st, res, pos)
 		e.endPath(st, "return")
